@@ -20,6 +20,9 @@ DICT_ANY_POOL = [{}, {"k": None}, {"type": "object", "properties": {"a": {"type"
                  {"n": 1, "f": 1.0, "b": True, "s": "123", "l": [None, 1], "d": {"x": None}}, {"_meta": {"progressToken": 7}}]
 
 
+# names of the model base class's own API: an extra member of that name is stored as an instance attribute by the
+# fallback backend and shadows the method (known finding)
+API_NAMES = {"model_dump", "model_dump_json", "model_validate", "model_fields", "model_config", "json", "dict", "copy"}
 SPEC_RANGES = {"priority": (0, 1), "costPriority": (0, 1), "speedPriority": (0, 1), "intelligencePriority": (0, 1)}
 SPEC_WIRE_NAMES = {"meta": "_meta", "schema_": "schema"}
 
@@ -243,7 +246,10 @@ class Gen:
                         o[wire] = self.rng.choice(vs)
                 add(o)
         # extras (extra="allow"): unknown members of every JSON type
-        for extra in ({"x-extra": 1}, {"unknownMember": {"deep": [None, "v"]}, "z": None}, {"_meta": {"a": 1}}, {"extra_str": "123"}):
+        for extra in ({"x-extra": 1}, {"unknownMember": {"deep": [None, "v"]}, "z": None}, {"_meta": {"a": 1}}, {"extra_str": "123"},
+                      # unknown members whose names collide with the implementation's own vocabulary
+                      {"__typename": "T"}, {"self": 1, "cls": 2}, {"model_dump": "x", "model_fields": [1]}, {"json": {}, "dict": []},
+                      {"meta": {"py": "name"}}, {"schema_": {"py": "name"}}):
             o = self.full(cls)
             for k, v in extra.items():
                 if k not in o and k not in {f[1] for f in fs} and k not in {f[0] for f in fs}:
